@@ -129,11 +129,12 @@ class ProgGen:
             ops = [(o, a, w) for o, a, w in COMPUTE_OPS if (o != "delay" or self.allow_delay)]
             if self.allow_ite:
                 ops.append(("ite", 3, 6))
+                ops.append(("icmp", 4, 3))
             op, arity, _ = rng.choices(ops, weights=[w for _, _, w in ops])[0]
             args = []
             for q in range(arity):
                 a = self.pick(ports)
-                if op == "ite" and q > 0:
+                if op in ("ite", "icmp") and q > 0:
                     # value inputs of a selection: never a sub-graph parameter (a reference crossing a nested boundary into
                     # another selection has boundary-specific unset/empty semantics the property does not define)
                     cands = [p for p in ports if p not in params] or ports
@@ -144,7 +145,7 @@ class ProgGen:
                     a = "~" + a         # wiring-time passive marker next to a signature-passive input
                 args.append(a)
             kw = dict(uid=self.uid())
-            if op == "ite":
+            if op in ("ite", "icmp"):
                 nested_results.add(nm)      # F12 avoidance: a sub-graph never returns a reference-shaped port directly
             if op == "delay":
                 kw["k"] = rng.choice([1, 1, 2, 3, 6])
